@@ -256,13 +256,19 @@ def step (st : State) (w : List String) : State × String :=
       let lb := labelCount name
       if minimized ml lb lvl nm then (st, s!"t {lvl + 1}") else (st, s!"f {lb}")
     | _, _, _ => (st, "bad-op")
-  | ["n3", kind, base, labels, memo] =>
+  | "n3" :: kind :: base :: labels :: memo :: rest =>
     if !st.valid then (st, "no-ledger") else
-    match parseBool memo, (if kind = "nx" then some false else if kind = "nodata" then some true else none) with
-    | some useMemo, some nodata =>
-      let b := if base = "host" then "host.n3.test." else "n3.test."
+    let itersOpt : Option Nat := match rest with
+      | [] => some 0
+      | [i] => i.toNat?
+      | _ => none
+    match parseBool memo, (if kind = "nx" then some false else if kind = "nodata" then some true else none), itersOpt with
+    | some useMemo, some nodata, some iters =>
+      -- the memo key holds the hash parameters: names of rings with different iteration counts never meet
+      let sfx := s!"#{iters}"
+      let b := (if base = "host" then "host.n3.test." else "n3.test.") ++ sfx
       let ls := if labels = "-" then [] else labels.splitOn "."
-      let (sh, memo', out) := n3Verify st.pol 64 nodata n3Ring b ls st.sh
+      let (sh, memo', out) := n3VerifyIter st.pol 64 150 iters nodata (n3Ring.map (· ++ sfx)) b ls st.sh
         (if useMemo then some st.n3memo else none)
       let st' := { st with sh := sh, n3memo := if useMemo then memo'.getD st.n3memo else st.n3memo }
       let r := match out with
@@ -270,7 +276,7 @@ def step (st : State) (w : List String) : State × String :=
         | .bogus => "bogus"
         | .work k lim => resStr (.limit k lim)
       (st', s!"res={r} n3={sh.ctr.a6}")
-    | _, _ => (st, "bad-op")
+    | _, _, _ => (st, "bad-op")
   | "ds" :: "new" :: _ => (st, "unmodelled")
   | ["ds", "verify", mode, cand, dsc, anch, dpos, kpos, d, k] =>
     match parseMode mode, cand.toNat?, dsc.toNat?, parseBool anch, d.toNat?, k.toNat? with
